@@ -67,6 +67,22 @@ CHECKS = {
    technique="model-based property testing (Hypothesis maildir populations and command sequences) against a reference POP3 model over the same files",
    text="Generated maildirs (new/cur, info suffixes, mtime ties, too-new files, dot lines, no final newline, long lines, files vanishing mid-session) and up to 20 commands with hostile numeric arguments (0, n+1, 2^31, 2^32+1, 10^20, 2^64+1, junk); every reply and the maildir after every command are compared with the model; exactly the marked files are removed and only at QUIT; uid 0 refused; qmail-popup honours only USER/PASS/APOP/NOOP/QUIT before login and passes credentials verbatim on descriptor 3.",
    note="STAT's count is outside the comparison (property text). Slack: TOP without k, LAST semantics, vanished files. Revert of fix 6665200 detected by the regression corpus."),
+ "C11": dict(cat="exploration", design="5/C11", engine="real qmail-newu, qmail-lspawn, qmail-getpw under vshim (identity virtualisation) with a stand-in qmail-local; in-process cdb writer/reader differential",
+   technique="model-based property testing (Hypothesis users/assign tables, passwd databases, local parts) against a model of qmail-users/qmail-getpw; seeded differential of cdbmake/cdbmss vs cdb_seek; fault and truncation sweeps",
+   text="Tables (exact, wildcard, duplicate, overlapping, mixed-case, uid 0, malformed) are compiled by the real qmail-newu; the real qmail-lspawn is driven over its descriptors; the stand-in records argv and the credential state accumulated from setgroups/setgid/setuid. Oracle: exact argv (user, home, local, dash, ext, domain, sender, aliasempty), setgroups -> setgid -> setuid -> exec in this order, never uid 0, Z (never D, never another user) for truncated/replaced cdb, getpwnam/stat/set*id faults, missing alias; qmail-getpw only after dropping privileges; malformed tables refused leaving users/cdb untouched; every stored cdb key returns its first value, absent keys 0.",
+   note="Identity changes are recorded by the interposer, not performed. qmail-pw2u is not exercised. Found and fixed: F3 wildcard case (05d2c0e)."),
+ "C12": dict(cat="fault_enumeration", design="5/C12", engine="real qmail-local under vshim (crash/fault injection, fsync shadows) + gate scheduler for concurrent deliveries",
+   technique="property-based testing (Hypothesis messages/senders) with crash-point and single-fault enumeration over the recorded trace; systematic depth-first enumeration of interleavings of 2-3 concurrent deliveries; mboxrd reference reader",
+   text="Maildir: every entry of new/ is the complete Return-Path + Delivered-To + message in the kept and lost images, created by link() from tmp/ after an fsync covering its data, exit 0 iff exactly one new entry, any failure -> 111 and nothing in new/. Mbox: exit 0 -> file = before + entry that the reader of mbox.5 splits/unquotes back to the message (From_/>From_ lines, partial last line), injected write/fsync failures -> 111 and file byte-identical to before, writes only between flock and close. Concurrency: ALL interleavings (gate scheduler, complete for the 2-delivery mbox worlds in the quick tier) of deliveries needing several write() calls, plus real simultaneous deliveries and a held-lock test.",
+   note="Crash = stop before a system call; one fault per run; mbox crash images are unconstrained (documented) except that previous content is never altered; a failing flock is slack (documented unlocked delivery)."),
+ "C13": dict(cat="exploration", design="5/C13", engine="real qmail-local (-n and real run) under vshim with stand-in queue and marker programs",
+   technique="model-based property testing (Hypothesis homes, .qmail files, extensions, messages) against a model of dot-qmail.5 / qmail-command.8 / qmail-local.8; trace-based path confinement check",
+   text="Generated homes (subsets of .qmail* files, modes, sticky/writable homes), dash/ext near misses (case, dots, slashes, dashes), instruction grammars (comments, programs with every exit code, mbox, maildir, forwards, +list), Delivered-To loops, hostile senders/recipients. Oracle: control-file selection order, every opened path inside the home, instruction order from the trace, exit-code table, no instruction or forward after a failure, exactly one queue submission with documented sender/recipients/message, environment of programs, header lines single-line.",
+   note="Runs as root: readability is modelled with the effective credentials; conf-patrn read from the tree; 8-bit extensions and whitespace-only first lines are not generated (undocumented)."),
+ "C17": dict(cat="exploration", design="5/C17", engine="in-process quote.c/token822.c/qmail-smtpd.c addrparse/qmail-remote.c addrmangle/qmail-inject.c dorecip + real qmail-inject with stand-in queue",
+   technique="bounded-exhaustive enumeration (all local parts <= 5 over a 19-symbol alphabet; <= 6 thorough) + seeded random round trips; grammar-based Hypothesis generation of RFC 822 address lists with the mailboxes known by construction; independent reference tokenizer",
+   text="Round trips: addrparse(<addrmangle(a)>) == a, unquote(addrlist(parse(quote2(a)))) == [a], parse(unparse(t)) == t, quote_need==0 => dot-atom. Whole program: envelope recipients = listed mailboxes after defaulthost/defaultdomain/plusdomain rewriting, sender selection, Bcc/Return-Path/Content-Length removed, other fields kept in order, every rewritten field re-parses (independent strict parser) to the same mailboxes; all -a/-h/-H/-A/-f modes and QMAILINJECT flags.",
+   note="Recipient order in the envelope is not documented and not checked (multiset). Syntactically invalid fields belong to C20. Found and fixed: comments inside angle brackets (10d076c)."),
 }
 NOT_YET = {}
 def main():
